@@ -229,6 +229,11 @@ def trace_validation(ctx, rekey, quick):
     # ---- binding controls: corrupted copies must be rejected ----
     good = [r['trace'] for r in recs if r['nkex'] >= 2 and
             any(e['ndef'] > 0 for e in r['trace']['ev'])][:4]
+    if len(good) < 4 and (ctx.violations or ctx.divergences):
+        ctx.notes.append('binding controls skipped: recorded traces were '
+                         'rejected (see violations / divergences)')
+        ctx.traces_validated(len(recs))
+        return
     ctx.require(len(good) == 4, 'no recorded trace with deferred packets')
     bad = []
     t = copy.deepcopy(good[0])
